@@ -35,12 +35,16 @@ var solvers = []solverSpec{
 	{"cvc5-1.0", func(f string, t int) []string { return []string{"cvc5", fmt.Sprintf("--tlimit=%d", t*1000), f} }},
 }
 
+// firstLine: the first output line that is not a solver warning.
 func firstLine(s string) string {
-	s = strings.TrimSpace(s)
-	if i := strings.IndexByte(s, '\n'); i >= 0 {
-		return strings.TrimSpace(s[:i])
+	for _, l := range strings.Split(strings.TrimSpace(s), "\n") {
+		l = strings.TrimSpace(l)
+		if l == "" || strings.HasPrefix(l, "WARNING") || strings.HasPrefix(l, "(warning") {
+			continue
+		}
+		return l
 	}
-	return s
+	return strings.TrimSpace(s)
 }
 
 func runSolver(ctx context.Context, sp solverSpec, file string, timeoutS int) (status, out string, dur float64) {
